@@ -7,7 +7,6 @@ import (
 
 	"github.com/advancedclimatesystems/gonnx/internal/zzverif"
 	"github.com/advancedclimatesystems/gonnx/onnx"
-	"github.com/advancedclimatesystems/gonnx/ops"
 	"gorgonia.org/tensor"
 )
 
@@ -275,17 +274,6 @@ func H_C16(v *zzverif.T) {
 			want, full := zzStackG(ordered, singleShape[o], outAxis[o])
 			v.AssertTensor("C16.each-sample-as-alone:"+order+":"+name, out[name], full, want)
 		}
-	}
-}
-
-// zzUseExportedHelpers: an application fills tensors obtained from ops.ZeroTensor / ops.OnesTensor with its own data.
-func zzUseExportedHelpers(v *zzverif.T) {
-	scratch := zzverif.Syms[float32](v, "app_scratch", 8)
-	z := ops.ZeroTensor(4, 2)
-	o := ops.OnesTensor(z)
-	for i, x := range scratch {
-		z.(*tensor.Dense).Set(i, x)
-		o.(*tensor.Dense).Set(i, x)
 	}
 }
 
